@@ -103,9 +103,12 @@ BigRowsUpTo(n) == UNION {[1..k -> [a : KeyBigU, b : KeyBigU]] : k \in 0..n}
 TupNumU  == {VTup(<<a, b>>) : a \in {VInt(1), VInt(2), VNaN(1)}, b \in {VInt(1), VNaN(2)}}
 KeyNumU  == {VInt(1), VInt(2), VNaN(1)}
 NumRowsUpTo(n) == UNION {[1..k -> [a : KeyNumU, b : KeyNumU]] : k \in 0..n}
+\* (MaxLen = 4 deepens the tuples and the number-only families; scalar lists stay <= 3 and big-key tables <= 2 rows,
+\*  which is where the state count would otherwise go: 14^4 lists, 25^3 x 4 tables)
+AtMost(n, m) == IF n < m THEN n ELSE m
 BigInit == {[kind |-> "law", i |-> i] : i \in 1..Len(UXSeq)}
-           \cup {[kind |-> "list", xs |-> s] : s \in SeqsUpTo(SortBigU, MaxLen) \cup SeqsUpTo(TupBigU, MaxLen - 1)}
-           \cup {[kind |-> "table", rows |-> WithIds(r), by |-> b] : r \in BigRowsUpTo(MaxLen - 1), b \in Bys}
+           \cup {[kind |-> "list", xs |-> s] : s \in SeqsUpTo(SortBigU, AtMost(MaxLen, 3)) \cup SeqsUpTo(TupBigU, MaxLen - 1)}
+           \cup {[kind |-> "table", rows |-> WithIds(r), by |-> b] : r \in BigRowsUpTo(AtMost(MaxLen - 1, 2)), b \in Bys}
            \cup {[kind |-> "list", xs |-> s] : s \in SeqsUpTo(TupNumU, MaxLen)}
            \cup {[kind |-> "table", rows |-> WithIds(r), by |-> b] : r \in NumRowsUpTo(MaxLen), b \in {<<"a">>, <<"b", "a">>}}
 BigSortLaws == (Mode = "big" /\ done /\ x.kind = "list") =>
